@@ -7,6 +7,8 @@ dict order-insensitive) and normalization errors.  A difference is a failing
 input of this property.  Port `validate` compares the full
 `validate(doc, normalize=True)` the same way.
 """
+import copy
+
 from .. import codec, real, cases, ports
 from ..lean import Driver
 
@@ -49,6 +51,28 @@ def compare(ctx, drv, case, full=False):
                         'real_exc': repr(out.exc) if out.exc is not None else None}
 
 
+def oracle_again(ctx, case, jcase):
+    """the documented result does not depend on the instance having normalized before: the same document through
+    normalized() twice, and after a validate(), on one instance"""
+    try:
+        f = real.make_validator(case)
+        r0 = f.normalized(copy.deepcopy(case['doc']), always_return_document=True)
+        want = (codec.canon_val(r0), codec.canon_errs(f._errors, LEVEL))
+        v = real.make_validator(case)
+        for k, prelude in enumerate((lambda: v.normalized(copy.deepcopy(case['doc'])),
+                                     lambda: v.validate(copy.deepcopy(case['doc']), update=case.get('update', False)))):
+            prelude()
+            r = v.normalized(copy.deepcopy(case['doc']), always_return_document=True)
+            got = (codec.canon_val(r), codec.canon_errs(v._errors, LEVEL))
+            if got != want:
+                ctx.fail('C02 oracle: normalized() on an instance that has %s the document before differs from a fresh normalized()'
+                         % ('normalized', 'validated')[k], dict(jcase, again=k),
+                         detail={'fresh': repr(want)[:800], 'again': repr(got)[:800]})
+                return
+    except Exception as e:
+        ctx.dist('skipped', 'again: ' + type(e).__name__)
+
+
 def run(ctx, n):
     ctx.cov['rule'] = ('generated accepted schemas with normalization rules (rename, rename_handler, default, default_setter, coerce '
                        'incl. chains and raising coercers, purge_unknown at validator and rule level, purge_readonly, readonly) nested '
@@ -62,6 +86,7 @@ def run(ctx, n):
                 ctx.dist('skipped', 'schema not accepted')
                 continue
             jcase = real.enc_case(case)
+            oracle_again(ctx, case, jcase)
             for full in (False, True):
                 st, detail = compare(ctx, drv, case, full=full)
                 port = 'validate' if full else 'normalize'
